@@ -215,7 +215,8 @@ Qed.
 
 Lemma sort_by_perm : forall {A} (lt : A -> A -> bool) l, Permutation (sort_by lt l) l.
 Proof.
-  induction l as [|x l IH]; cbn; [reflexivity|].
+  induction l as [|x l IH]; [reflexivity|].
+  change (sort_by lt (x :: l)) with (insert_by lt x (sort_by lt l)).
   rewrite insert_by_perm. now constructor.
 Qed.
 
@@ -232,7 +233,9 @@ Lemma sort_by_map : forall {A B} (f : A -> B) lt lt' l,
   (forall x y, In x l -> In y l -> lt' (f x) (f y) = lt x y) ->
   sort_by lt' (map f l) = map f (sort_by lt l).
 Proof.
-  induction l as [|x l IH]; intros H; cbn; [reflexivity|].
+  induction l as [|x l IH]; intros H; [reflexivity|].
+  change (sort_by lt' (map f (x :: l))) with (insert_by lt' (f x) (sort_by lt' (map f l))).
+  change (sort_by lt (x :: l)) with (insert_by lt x (sort_by lt l)).
   rewrite IH by (intros; apply H; now right).
   apply insert_by_map. intros y Hy. apply H; [right | now left].
   eapply Permutation_in; [apply sort_by_perm | exact Hy].
@@ -241,7 +244,7 @@ Qed.
 Lemma insert_sorted : forall x l,
   StronglySorted le l -> StronglySorted le (insert_by Nat.ltb x l).
 Proof.
-  induction l as [|y l IH]; intros Hs; cbn.
+  induction l as [|y l IH]; intros Hs; cbn [insert_by].
   - constructor; constructor.
   - inversion Hs as [|? ? Hs' Hall]; subst.
     destruct (Nat.ltb y x) eqn:E.
@@ -255,7 +258,11 @@ Proof.
 Qed.
 
 Lemma sort_sorted : forall l, StronglySorted le (sort_by Nat.ltb l).
-Proof. induction l; cbn; [constructor | now apply insert_sorted]. Qed.
+Proof.
+  induction l as [|x l IH]; [constructor|].
+  change (sort_by Nat.ltb (x :: l)) with (insert_by Nat.ltb x (sort_by Nat.ltb l)).
+  now apply insert_sorted.
+Qed.
 
 Lemma sorted_le_nodup_lt : forall l, StronglySorted le l -> NoDup l -> StronglySorted lt l.
 Proof.
@@ -322,14 +329,15 @@ Proof.
     + apply Nat.ltb_ge in E. apply N.ltb_ge. lia.
 Qed.
 
-Corollary sort_parts_nth : forall dir l n j,
+Corollary sort_parts_nth : forall dir l n j d,
   Permutation l (seq 0 n) -> j < n ->
-  nth j (sort_pieces (map (fun i => part_path dir (N.of_nat i)) l)) EmptyString =
+  nth j (sort_pieces (map (fun i => part_path dir (N.of_nat i)) l)) d =
   part_path dir (N.of_nat j).
 Proof.
-  intros dir l n j Hp Hj. rewrite (sort_parts dir l n Hp).
-  change EmptyString with ((fun i => part_path dir (N.of_nat i)) 0) at 1.
-  rewrite map_nth, seq_nth by assumption. reflexivity.
+  intros dir l n j d Hp Hj. rewrite (sort_parts dir l n Hp).
+  set (f := fun i => part_path dir (N.of_nat i)).
+  rewrite (nth_indep _ d (f 0)) by (now rewrite map_length, seq_length).
+  rewrite (map_nth f), seq_nth by assumption. reflexivity.
 Qed.
 
 (* textual order would not do: "part.10" sorts before "part.2" as plain strings *)
